@@ -283,110 +283,3 @@ theorem printNat_parseNat_of_canonical (ds : Str) (h : isCanonicalInt ds = true)
       simpa using this
 
 end Radix.AddrText
-
-namespace Radix.AddrText
-open Radix.Bech32 (Str Bytes utf8Len u8len)
-
-/-! ### RUID layout -/
-
-theorem ruidBody_facts (h : Str) (hl : h.length = 64) (hn : ∀ c ∈ h, c ≠ '-') :
-    (ruidBody h).length = 67 ∧ (ruidBody h)[16]? = some '-' ∧ (ruidBody h)[33]? = some '-' ∧
-    (ruidBody h)[50]? = some '-' ∧ (ruidBody h).filter (· ≠ '-') = h := by
-  have e1 : h = h.take 16 ++ h.drop 16 := (List.take_append_drop 16 h).symm
-  have e2 : h.drop 16 = (h.drop 16).take 16 ++ h.drop 32 := by
-    have := (List.take_append_drop 16 (h.drop 16)).symm
-    rwa [List.drop_drop] at this
-  have e3 : h.drop 32 = (h.drop 32).take 16 ++ h.drop 48 := by
-    have := (List.take_append_drop 16 (h.drop 32)).symm
-    rwa [List.drop_drop] at this
-  have e4 : (h.drop 48).take 16 = h.drop 48 := List.take_of_length_le (by simp [hl])
-  have la : (h.take 16).length = 16 := by simp [hl]
-  have lb : ((h.drop 16).take 16).length = 16 := by simp [hl]
-  have lc : ((h.drop 32).take 16).length = 16 := by simp [hl]
-  have ld : ((h.drop 48).take 16).length = 16 := by simp [hl]
-  have hf : ∀ l : Str, (∀ c ∈ l, c ∈ h) → l.filter (· ≠ '-') = l := by
-    intro l hlm
-    rw [List.filter_eq_self]
-    intro c hc
-    simpa using hn c (hlm c hc)
-  have ma : ∀ c ∈ h.take 16, c ∈ h := fun c hc => List.mem_of_mem_take hc
-  have mb : ∀ c ∈ (h.drop 16).take 16, c ∈ h := fun c hc => List.mem_of_mem_drop (List.mem_of_mem_take hc)
-  have mc : ∀ c ∈ (h.drop 32).take 16, c ∈ h := fun c hc => List.mem_of_mem_drop (List.mem_of_mem_take hc)
-  have md : ∀ c ∈ (h.drop 48).take 16, c ∈ h := fun c hc => List.mem_of_mem_drop (List.mem_of_mem_take hc)
-  refine ⟨?_, ?_, ?_, ?_, ?_⟩
-  · simp only [ruidBody, List.length_append, List.length_cons, la, lb, lc, ld]
-  · simp only [ruidBody]
-    rw [List.getElem?_append_right (by omega), la]; rfl
-  · simp only [ruidBody]
-    rw [List.getElem?_append_right (by omega), la]
-    show (_ :: _)[17]? = _
-    rw [List.getElem?_cons_succ, List.getElem?_append_right (by omega), lb]; rfl
-  · simp only [ruidBody]
-    rw [List.getElem?_append_right (by omega), la]
-    show (_ :: _)[34]? = _
-    rw [List.getElem?_cons_succ, List.getElem?_append_right (by omega), lb]
-    show (_ :: _)[17]? = _
-    rw [List.getElem?_cons_succ, List.getElem?_append_right (by omega), lc]; rfl
-  · have hd : (List.filter (fun x => decide (x ≠ '-')) ('-' :: ([] : Str))) = [] := by decide
-    simp only [ruidBody, List.filter_append, List.filter_cons, hf _ ma, hf _ mb, hf _ mc, hf _ md]
-    simp only [ne_eq, not_true_eq_false, decide_false, Bool.false_eq_true, if_false]
-    rw [e4]
-    conv => rhs; rw [e1, e2, e3]
-
-/-! ### parse ∘ print per id kind -/
-
-theorem isIdChar_ascii {c : Char} (h : isIdChar c = true) : c.toNat < 128 ∧ c ≠ ':' := by
-  unfold isIdChar at h
-  simp only [Bool.or_eq_true, Bool.and_eq_true, decide_eq_true_eq, beq_iff_eq] at h
-  refine ⟨by omega, ?_⟩
-  intro e; subst e
-  have : ':'.toNat = 58 := by decide
-  omega
-
-theorem parse_print_str (cs : Str) (hv : (LocalId.str cs).Valid) :
-    parseLocalId (printLocalId (.str cs)) = .ok (.str cs) := by
-  obtain ⟨h1, h2, h3⟩ := hv
-  have hasc : ∀ c ∈ cs, c.toNat < 128 := fun c hc => (isIdChar_ascii (List.all_eq_true.1 h3 c hc)).1
-  have hlen := utf8Len_ascii cs hasc
-  simp only [printLocalId, parseLocalId, startsWith_cons, endsWith_wrap, Bool.and_self, if_true]
-  rw [inner_wrap _ _ _ (by decide) (by decide)]
-  have hne : ¬ cs.length = 0 := by omega
-  have hle : ¬ cs.length > MAXLEN := by omega
-  simp [mkString, validateString, hlen, hne, hle, h3]
-
-theorem parse_print_int (n : Nat) (hv : (LocalId.int n).Valid) :
-    parseLocalId (printLocalId (.int n)) = .ok (.int n) := by
-  have hv' : n < 2 ^ 64 := hv
-  have hlt : utf8Len ('#' :: (printNat n ++ ['#'])) > 1 := by
-    rw [utf8Len_cons, utf8Len_append, utf8Len_cons, utf8Len_nil]
-    have := u8len_pos '#'; omega
-  simp only [printLocalId, parseLocalId, startsWith_ne '#' '<' _ (by decide), Bool.false_and,
-    Bool.false_eq_true, if_false, startsWith_cons, endsWith_wrap, Bool.and_self, hlt, decide_true, if_true]
-  rw [inner_wrap _ _ _ (by decide) (by decide)]
-  simp [isCanonicalInt_printNat, parseU64, parseNat_printNat, hv']
-
-theorem parse_print_bytes (b : Bytes) (hv : (LocalId.bytes b).Valid) :
-    parseLocalId (printLocalId (.bytes b)) = .ok (.bytes b) := by
-  obtain ⟨h1, h2⟩ := hv
-  have hne : ¬ b.length = 0 := by omega
-  have hle : ¬ b.length > MAXLEN := by omega
-  simp only [printLocalId, parseLocalId, startsWith_ne '[' '<' _ (by decide), startsWith_ne '[' '#' _ (by decide),
-    Bool.false_and, Bool.and_false, Bool.false_eq_true, if_false, startsWith_cons, endsWith_wrap, Bool.and_self, if_true]
-  rw [inner_wrap _ _ _ (by decide) (by decide)]
-  simp [hexDecode_hexEncode, mkBytes, validateBytes, hne, hle]
-
-theorem parse_print_ruid (b : Bytes) (hv : (LocalId.ruid b).Valid) :
-    parseLocalId (printLocalId (.ruid b)) = .ok (.ruid b) := by
-  have hv' : b.length = 32 := hv
-  have hl : (hexEncode b).length = 64 := by rw [hexEncode_length, hv']
-  have hch := hexEncode_chars b
-  obtain ⟨f1, f2, f3, f4, f5⟩ := ruidBody_facts (hexEncode b) hl (fun c hc => (hch c hc).2.1)
-  have hu : utf8Len (hexEncode b) = 64 := by
-    rw [utf8Len_ascii _ (fun c hc => (hch c hc).1), hl]
-  simp only [printLocalId, parseLocalId, startsWith_ne '{' '<' _ (by decide), startsWith_ne '{' '#' _ (by decide),
-    startsWith_ne '{' '[' _ (by decide),
-    Bool.false_and, Bool.and_false, Bool.false_eq_true, if_false, startsWith_cons, endsWith_wrap, Bool.and_self, if_true]
-  rw [inner_wrap _ _ _ (by decide) (by decide)]
-  simp [f1, f2, f3, f4, f5, hu, hexDecode_hexEncode, hv']
-
-end Radix.AddrText
